@@ -399,12 +399,47 @@ def _check(args):
     return {"i": i, "ok": True, "key": hash(r.xform), "n": r.xform.count("<bind")}
 
 
+def _check_include(args):
+    """a form assembled by the builder from sections (the `include` row type): the rows of the included section stand where the include row
+    stood, and every path starts at the root of the form that is produced"""
+    seed, i = args
+    rng = rng_for(seed, PID, "include", i)
+    from pyxform.builder import create_survey
+    from pyxform.errors import PyXFormError
+    from pyxform.xls2json import workbook_to_json
+    from pyxform.xls2json_backends import get_xlsform
+    prof = forms.Profile(adversarial=0.0, max_rows=rng.choice([3, 5, 8]), max_depth=3, p_group=0.25, p_repeat=0.2, p_or_other=0.0, p_select=0.0, p_trigger=0.0, p_dyn_default=0.4, p_default=0.2)
+    main = forms.gen_form(rng, prof)
+    sub_rows = [{"type": "text", "name": f"inc_a{i % 7}", "label": "A"}, {"type": "begin group", "name": "inc_g", "label": "G"},
+                {"type": rng.choice(["integer", "date", "geopoint"]), "name": "inc_b", "label": "B", **({"default": "today()"} if rng.random() < 0.5 else {})},
+                {"type": "end group"}][: rng.choice([1, 4])]
+    sub = {"survey": sub_rows, "settings": [{"omit_instanceID": "yes"}]}
+    pos = rng.randint(0, len(main["survey"]))
+    depth = 0
+    for r in main["survey"][:pos]:
+        depth += r.get("type", "").startswith("begin") - r.get("type", "").startswith("end")
+    main["survey"].insert(pos, {"type": "include", "name": "sub"})
+    desc = {"main": main, "sub": sub, "include_row_at": pos, "case": i}
+    try:
+        sections = {nm: workbook_to_json(get_xlsform(forms.as_dict(f)), form_name=nm) for nm, f in (("main", main), ("sub", sub))}
+        xform = create_survey(name_of_main_section="main", sections=sections).to_xml(validate=False)
+    except PyXFormError as e:
+        return {"i": i, "skip": "pyxerr:" + str(e)[:40]}
+    except Exception as e:   # noqa: BLE001
+        return {"i": i, "skip": "crash (C17): " + repr(e)[:60]}
+    probs = audit(xform)
+    if probs:
+        return {"i": i, "form": desc, "what": "form assembled with an include row: " + "; ".join(probs)[:600], "xform": xform[:2500]}
+    return {"i": i, "ok": True, "key": ("include", hash(xform)), "n": xform.count("<bind"), "include": True}
+
+
 def oracle(seed, tier, searching=False):
     n = 500 if tier == "quick" else 8000
     nc = 200 if tier == "quick" else 2000
     if searching:
         n *= 3
     res = pmap(_check, [(seed, i, False) for i in range(n)] + [(seed, i, True) for i in range(nc)])
+    res += pmap(_check_include, [(seed, i) for i in range(n // 5)])
     fails = [r for r in res if "what" in r]
     oks = [r for r in res if r.get("ok")]
     return {
